@@ -302,7 +302,7 @@ def run_case(case):
         try:
             back = getattr(cls, de)(raw)
         except Exception as ex:      # noqa: BLE001
-            r.fail("C28/%s-deserialise-raised:%s" % (name, type(ex).__name__), "%r raw=%r" % (ex, raw[:200]))
+            r.fail("C28/%s-deserialise-raised:%s" % (name, type(ex).__name__), "%r raw=%s" % (ex, repr(raw)[:200]))
             continue
         if type(back) is not cls:
             r.fail("C28/%s-class" % name, "got %s expected %s" % (type(back).__name__, cls.__name__))
